@@ -24,7 +24,7 @@ MANIFEST = {
             "length 4 (quick) / 5-6 (thorough) and prints the reference result of every behaviour; the real "
             "gtab.Context.Apply is run on the same tables and inputs and must produce exactly that result wherever "
             "the spec marks the behaviour as defined (families: simple, lig, order, ctx, ctxnest, ctxskip, ctxfilt, "
-            "ctxtrail, chain incl. class 0 and reverse chaining, gpos, block, bigid). Random lookup lists with arbitrary GDEF "
+            "ctxtrail, chain incl. class 0 and reverse chaining, gpos, block, long = repeated patterns of 60-140 glyphs, bigid). Random lookup lists with arbitrary GDEF "
             "data / longer strings go the other way: real outputs are recorded and TLC checks them against the spec. "
             "The repository's 117 GSUB test cases, lifted from real gtab tables, validate the spec in every run.",
     "note": "Trusted: TLC, the table builder of the harness (public gtab structs), the transcription of OpenType "
@@ -49,6 +49,7 @@ PLANS = [
     ("ctxfilt", ["ctxfilt"], [1, 4, 5], 4, 5),
     ("ctxtrail", ["ctxtrail"], [1, 2, 4, 5], 4, 5),
     ("block", ["block"], [1, 2, 4], 4, 5),
+    ("long", ["long"], [1], 0, 0),                    # explicit long inputs (repeated patterns)
     ("bigid", ["bigid"], [100, 65535], 2, 2),         # explicit inputs over the whole 16-bit range
 ]
 
